@@ -20,7 +20,7 @@ RULE = ("E1: every cell of incoming (type x code in {0.00, 0.01, 0.31, 2.05, 4.0
         "{pending, unknown} x source {peer, other port} x local address {unicast, ff02::fd, v4-mapped 224.0.1.187} x handler "
         "duration {0, D-e, D+e, 0.5 s} x No-Response {absent,0,2,8,16,26}) where the statement defines the reaction, all ordered "
         "pairs of a sub-table, cells behind the node's own unacknowledged CON (answered on time, separate response released by its ACK), the peer's message carrying the node's own "
-        "just-acknowledged message ID, and outgoing multicast cells x tuning reliability preference; states = distinct (cell, reply multiset) pairs")
+        "just-acknowledged message ID, 1-3 exchanges with the peer's other port while a CON to its first port is open, and outgoing multicast cells x tuning reliability preference; states = distinct (cell, reply multiset) pairs")
 ASSUMPTIONS = [
     "CON with reserved-class/signalling code: 'ignored' or RST both accepted (statement vs RFC 7252 4.2)",
     "ACK carrying a response for a pending token but a foreign message ID: delivery is a don't-care; nothing may be sent",
@@ -300,6 +300,49 @@ def run_behind_unacked(res, cell):
         w.dispose()
 
 
+def run_other_port(res, n_requests, first_open):
+    """The peer's first port leaves a confirmable message of the node unacknowledged (first_open) or not; meanwhile the peer's
+    other port makes n slow confirmable requests one after the other and acknowledges each separate response.  An endpoint is
+    address and port: every one of them gets its empty ACK and, once, its separate response - whatever goes on with the first port."""
+    w, node, req, tok, reqmid, calls = build()
+    try:
+        for n in w.nodes.values():
+            if hasattr(n, "autoack"):
+                n.autoack = n.addr == PEER2
+        t = w.loop.time()
+        if first_open:
+            data, mid0, token0 = incoming((rc.CON, 1, False, "peer", "uni", "slow", None), tok, 0)
+            w.inject(PEER, NODE, data, local_ip=LOCALS["uni"])
+            w.loop.advance_to(t + 0.6)       # its separate response is on the wire and stays unacknowledged
+        got, want = [], []
+        for i in range(n_requests):
+            t1 = w.loop.time()
+            n_before = len(w.sent)
+            data, mid, token = incoming((rc.CON, 1, False, "peer2", "uni", "slow", None), tok, 1 + i)
+            w.inject(PEER2, NODE, data, local_ip=LOCALS["uni"])
+            # (short of the first retransmission of anything still open towards the first port)
+            w.loop.advance_to(t1 + 0.7)
+            for dg in list(w.pool):
+                w.deliver(dg)
+            replies = [(dg, rc.decode(dg.data, check_formats=False)) for dg in w.sent[n_before:] if dg.src == NODE and dg.dst == PEER2]
+            got.append(classify(replies, [mid], [token], t1, with_time=True))
+            want.append(norm_expected(expected((rc.CON, 1, False, "peer2", "uni", "slow", None), mid, token)))
+        case = {"other_port": [n_requests, first_open]}
+        res.evaluations += 1
+        res.traces += 1
+        if got != want:
+            res.violate(Violation("reaction-to-other-port", want, got, "messagemanager.py:_continue_backlog", case, trace=w.trace[-30:],
+                                  key="other-port/" + ("open" if first_open else "idle")))
+        for msg, e in w.loop_exceptions():
+            res.violate(Violation("loop-exception", "none", core.exc_desc(e) if e else msg, core.site_of(e) if e else "loop", case, key="loop"))
+        res.states.add(core.digest(("other-port", n_requests, first_open, got)))
+        res.transitions += n_requests
+        res.outcomes.add(core.digest(("other-port", got)))
+        res.signatures.add(core.digest(("other-port", n_requests, first_open)))
+    finally:
+        w.dispose()
+
+
 def run_behind_release(res, dur, nr):
     """A second slow CON request arrives while the node's separate response to the first is still unacknowledged: it is acknowledged
     (empty ACK) on time, its own separate response waits for the open exchange - and goes out, once, with a fresh message ID and the
@@ -351,7 +394,7 @@ def run_behind_release(res, dur, nr):
         w.dispose()
 
 
-def run_duplicate_in_window(res, dur, gap, nr):
+def run_duplicate_in_window(res, dur, gap, nr, err=False):
     """A second copy of a CON request (same endpoint, same message ID) arrives `gap` seconds after the first - before or after the
     acknowledgement - and the handler answers when it answers: the request is acknowledged exactly once under its message ID, by
     the piggy-backed response if that is ready within EMPTY_ACK_DELAY, else by an empty ACK and a separate response with a fresh ID
@@ -363,9 +406,13 @@ def run_duplicate_in_window(res, dur, gap, nr):
         data, mid, token = incoming(cell, tok, 1)
         w.inject(PEER, NODE, data, local_ip=LOCALS["uni"])
         w.loop.advance_to(t0 + gap)
+        if err:
+            # a transport error is reported for the peer after the exchange is through: what has been received from it stays received
+            import errno
+            node.receive_error(PEER, errno.EHOSTUNREACH)
         w.inject(PEER, NODE, data, local_ip=LOCALS["uni"])
         w.loop.advance_to(t0 + 1.5)
-        case = {"duplicate_in_window": [dur, gap, nr]}
+        case = {"duplicate_in_window": [dur, gap, nr, err]}
         res.evaluations += 1
         res.traces += 1
         mine = [rc.decode(d.data, check_formats=False) for d in w.sent if d.src == NODE and d.dst == PEER]
@@ -387,10 +434,10 @@ def run_duplicate_in_window(res, dur, gap, nr):
                                   trace=w.trace[-20:], key="dupwin/%s/%s" % (dur, "twice" if len(got_acks) > 1 else "other")))
         for msg, e in w.loop_exceptions():
             res.violate(Violation("loop-exception", "none", core.exc_desc(e) if e else msg, core.site_of(e) if e else "loop", case, key="loop"))
-        res.states.add(core.digest(("dupwin", dur, gap, nr, tuple(got_acks), len(seps))))
+        res.states.add(core.digest(("dupwin", dur, gap, nr, err, tuple(got_acks), len(seps))))
         res.transitions += 2
         res.outcomes.add(core.digest(("dupwin", tuple(got_acks), len(seps))))
-        res.signatures.add(core.digest(("dupwin", dur, gap, nr)))
+        res.signatures.add(core.digest(("dupwin", dur, gap, nr, err)))
     finally:
         w.dispose()
 
@@ -690,10 +737,15 @@ def job(arg):
         for dur in ("slow", "D+e"):
             for nr in (None, 2, 8, 26):
                 run_behind_release(res, dur, nr)
+        for n in (1, 2, 3):
+            for first_open in (True, False):
+                run_other_port(res, n, first_open)
         for dur in DUR:
             for gap in (0.0, 0.01, 0.05, 0.09, 0.11, 0.3, 0.6):
                 for nr in (None, 2):
                     run_duplicate_in_window(res, dur, gap, nr)
+                    if DUR[dur] < EAD and DUR[dur] < gap:
+                        run_duplicate_in_window(res, dur, gap, nr, err=True)
         for dst in ("ff02::fd", "::ffff:224.0.1.187"):
             for late_type in ("CON", "NON"):
                 run_multicast_given_up(res, dst, late_type)
@@ -772,6 +824,8 @@ def replay(case, scenario, seed):
         run_duplicate_in_window(res, *case["duplicate_in_window"])
     elif "multicast_given_up" in case:
         run_multicast_given_up(res, *case["multicast_given_up"])
+    elif "other_port" in case:
+        run_other_port(res, *case["other_port"])
     elif "behind_release" in case:
         run_behind_release(res, *case["behind_release"])
     elif "mid_crossing" in case:
